@@ -104,6 +104,7 @@ def sqlite_restore(tier):
             conds.append(z3.Not(has) if m.group(1) else has)
         return z3.And(conds) if conds else z3.BoolVal(True)
 
+    nd = [0]
     for s, gs in stmts:
         g = guard_expr(gs)
         if s.kind == 'BEGIN':
@@ -117,15 +118,22 @@ def sqlite_restore(tier):
         if s.kind == 'DELETE':
             cols = [c[0] for c in s.where]
             gc = group_col(tables, s.table)
-            if s.table == 'group_state_snapshots':
-                if set(cols) == {'snapshot_name', 'group_id'} and all(c[1] == '=' for c in s.where):
-                    st.delete(s.table, lambda x: z3.And(x['g'], x['n']), g)
-                else:
-                    raise S.SqlError('unexpected DELETE on group_state_snapshots: ' + s.text)
-            elif len(s.where) == 1 and s.where[0][0] == gc and s.where[0][1] == '=':
-                st.delete(s.table, lambda x: x['g'], g)
-            else:
-                raise S.SqlError('DELETE shape not modelled: ' + s.text)
+            # row predicate of the DELETE: `<group column> = ?` selects the target group, `snapshot_name = ?` the target snapshot;
+            # any other conjunct (another column, an inequality, a sub-select) is a condition the encoding knows nothing about:
+            # a fresh boolean per row, so the statement may or may not delete each candidate row (sound over-approximation)
+            nd[0] += 1
+            k = nd[0]
+            def pred(x, s=s, gc=gc, k=k):
+                cs = []
+                for ci, c in enumerate(s.where):
+                    if isinstance(c, tuple) and len(c) == 3 and c[0] == gc and c[1] == '=' and str(c[2]).strip().startswith('?'):
+                        cs.append(x['g'])
+                    elif isinstance(c, tuple) and len(c) == 3 and c[0] == 'snapshot_name' and c[1] == '=' and s.table == 'group_state_snapshots':
+                        cs.append(x['n'])
+                    else:
+                        cs.append(x.setdefault(f'_u{k}_{ci}', z3.Bool(f'del{k}_{ci}_{id(x)}')))
+                return z3.And(cs) if cs else z3.BoolVal(True)
+            st.delete(s.table, pred, g)
         elif s.kind == 'INSERT':
             if s.table == 'group_state_snapshots':
                 st.insert(s.table, others, g)
